@@ -1,23 +1,23 @@
+import NTV.Model.Draw
+/-! Model of src/prime.rs (Miller–Rabin with 20 random bases). Import-free. -/
 namespace NTV.Prime
 
+/-- square-and-multiply on the binary digits of e (fuel = bit length of e) -/
+def powModLoop (n : Nat) : Nat → Nat → Nat → Nat → Nat
+  | 0, _, _, acc => acc
+  | f + 1, base, e, acc =>
+    if e = 0 then acc
+    else powModLoop n f (base * base % n) (e / 2) (if e % 2 = 1 then acc * base % n else acc)
+
 /-- BigInt::modpow on non-negative arguments: result in [0, n). -/
-def powMod (b e n : Nat) : Nat := Id.run do
-  let mut result := 1 % n
-  let mut base := b % n
-  let mut e := e
-  -- square and multiply; `e` halves each step
-  for _ in [0:e.log2 + 1] do
-    if e % 2 == 1 then result := result * base % n
-    base := base * base % n
-    e := e / 2
-  return result
+def powMod (b e n : Nat) : Nat := powModLoop n (e.log2 + 1) (b % n) e (1 % n)
 
 /-- n - 1 = d * 2^c with d odd (the `while !d.bit(0)` loop) -/
 def splitTwos : Nat → Nat → Nat → Nat × Nat
   | 0, d, c => (d, c)
   | fuel + 1, d, c => if d % 2 == 0 && d != 0 then splitTwos fuel (d / 2) (c + 1) else (d, c)
 
-/-- the inner `for _ in 0..c` loop; returns (verdict?) : `none` = fell through, some true = aborted (passes), some false = witness -/
+/-- the inner `for _ in 0..c` loop; `none` = fell through, some true = aborted (passes), some false = witness -/
 def mrLoop (n : Nat) : Nat → Nat → Option Bool × Nat
   | 0, tmp => (none, tmp)
   | c + 1, tmp =>
@@ -26,7 +26,8 @@ def mrLoop (n : Nat) : Nat → Nat → Option Bool × Nat
       let tmp := tmp * tmp % n
       if tmp == 1 then (some false, tmp) else mrLoop n c tmp
 
-/-- one Miller–Rabin round with base r; true = "continue" (probably prime for this base) -/
+/-- one Miller–Rabin round with base r; true = "continue" (probably prime for this base).
+`r ^ d % n` is the specification of `modpow`; the executable driver uses `mrRoundFast`. -/
 def mrRound (n d c r : Nat) : Bool :=
   let tmp := r ^ d % n
   if tmp == 1 then true
@@ -34,6 +35,7 @@ def mrRound (n d c r : Nat) : Bool :=
     | (some b, _) => b
     | (none, tmp) => tmp == 1   -- `!aborted && tmp != 1` ⇒ false
 
+/-- the test with an explicit list of bases (all rounds) -/
 def isPrimeWith (n : Int) (bases : List Nat) : Bool :=
   if n ≤ 1 then false
   else if n == 2 then true
@@ -42,5 +44,31 @@ def isPrimeWith (n : Int) (bases : List Nat) : Bool :=
     let n := n.toNat
     let (d, c) := splitTwos n (n - 1) 0
     bases.all (fun r => mrRound n d c r)
+
+/-- same round with square-and-multiply exponentiation (what runs in the driver) -/
+def mrRoundFast (n d c r : Nat) : Bool :=
+  let tmp := powMod r d n
+  if tmp == 1 then true
+  else match mrLoop n c tmp with
+    | (some b, _) => b
+    | (none, tmp) => tmp == 1
+
+/-- the `for _ in 0..k` loop drawing its bases from the stream; `none` = stream exhausted -/
+def rounds (n d c : Nat) : Nat → NTV.Draw.Stream → Option Bool
+  | 0, _ => some true
+  | k + 1, s =>
+    match NTV.Draw.range 1 (n : Int) s with
+    | none => none
+    | some (r, s') => if mrRoundFast n d c r.toNat then rounds n d c k s' else some false
+
+/-- `is_prime(n)` with its draw stream -/
+def isPrime (n : Int) (s : NTV.Draw.Stream) : Option Bool :=
+  if n ≤ 1 then some false
+  else if n == 2 then some true
+  else if n % 2 == 0 then some false
+  else
+    let n := n.toNat
+    let (d, c) := splitTwos n (n - 1) 0
+    rounds n d c 20 s
 
 end NTV.Prime
